@@ -845,3 +845,64 @@ func TestReuseAfterError(t *testing.T) {
 		})
 	})
 }
+
+// TestScale: byte and text strings of one to four MiB - exact multiples, one
+// more, one less - each followed by a small item, from an in-memory reader and
+// from a chunked channel: the value, and exactly its bytes.
+func TestScale(t *testing.T) {
+	rapid.Check(t, func(t *rapid.T) {
+		core.Run(t, "cbor/scale", func(c *core.Ctx) {
+			n := c.PickInt("scale.len", 1<<20-1, 1<<20, 1<<20+1, 2<<20, 2<<20+1, 3<<20, 4<<20, 4<<20-1)
+			text := c.Bool("scale.text")
+			content := make([]byte, n)
+			core.FillPattern(content, c.U64("scale.pat", 0, ^uint64(0)))
+			major := 2
+			if text {
+				major = 3
+				for i := range content {
+					content[i] = 0x20 + content[i]%0x5f
+				}
+			}
+			stream := append(refcbor.AppendHead(nil, major, uint64(n)), content...)
+			stream = append(stream, 0x18, 0x2a) // then: unsigned 42
+			var r io.Reader = bytes.NewReader(stream)
+			if c.Bool("scale.chunked") {
+				r = c.NewReader("chan", stream, core.ReaderPlan{ErrAt: -1, Mode: 1, Chunk: c.PickInt("scale.chunk", 4096, 65536, 1<<20)})
+			}
+			d := verifhook.NewCborDecoder(r)
+			var got []byte
+			var err error
+			pi, alloc := c.GuardAlloc("cbor.DecodeString", func() {
+				if text {
+					var s string
+					s, err = d.DecodeTextString()
+					got = []byte(s)
+				} else {
+					got, err = d.DecodeByteString()
+				}
+			})
+			if c.Oracle("C10", "C12") {
+				c.CheckTotal("cbor.DecodeString", len(stream), pi, alloc)
+			}
+			if pi != nil {
+				return
+			}
+			var next uint64
+			var nerr error
+			c.Guard("cbor.DecodeUint", func() { next, nerr = d.DecodeUint() })
+			if c.Oracle("C12") {
+				if err != nil {
+					c.Violation("spurious-error", "DecodeString/scale", "a complete %d-byte string was refused: %v", n, err)
+				}
+				if !bytes.Equal(got, content) {
+					c.Violation("wrong-value", "DecodeString/scale", "a %d-byte string decoded to %d bytes", n, len(got))
+				}
+				if nerr != nil || next != 42 {
+					c.Violation("wrong-consumption", "DecodeString/scale", "the item behind a %d-byte string decodes to %d (err=%v), expected 42", n, next, nerr)
+				}
+			}
+			c.Outcome("nt:ok")
+			c.Sig("scale/%d/%v", n, text)
+		})
+	})
+}
